@@ -319,7 +319,7 @@ theorem agree_execAct (hfiles : ∀ p, fs p ≠ none → p ∈ files) (hs : RecS
       | error e => simp
       | ok mv =>
         dsimp only
-        cases fr.exportTop <;> cases mv <;> simp
+        cases fr.exportTop <;> cases mv <;> simp [V.scalar]
     | none =>
       dsimp only
       obtain ⟨he, hn⟩ := agree_runImport (cfg := cfg) (name := m) (fr := fr) hfiles ha hinv hav
@@ -333,7 +333,7 @@ theorem agree_execAct (hfiles : ∀ p, fs p ≠ none → p ∈ files) (hs : RecS
         | ok mv =>
           dsimp only
           refine ⟨rfl, ?_⟩
-          cases fr.exportTop <;> cases mv <;> simp
+          cases fr.exportTop <;> cases mv <;> simp [V.scalar]
   | tryImport m mk =>
     obtain ⟨he, hn⟩ := agree_runImport (cfg := cfg) (name := m) (fr := fr) hfiles ha hinv hav
     simp only [execAct]
